@@ -49,7 +49,8 @@ fn well_formed_stream() -> Vec<u8> {
     let mut st: Vec<u8> = Vec::new();
     let mut i = 0;
     while i < n {
-        let val = sym::any_str("val", "utf8-nonl", 0, 2);
+        // first entry: one arbitrary character (1-4 bytes); later entries: a fixed 2-byte character
+        let val = if i == 0 { sym::any_str("val", "utf8-nonl", 0, 1) } else { "\u{e9}".to_string() };
         st.extend_from_slice(&entry(&val, b'a' + i as u8));
         i += 1;
     }
